@@ -196,4 +196,92 @@ theorem C01_tunnel_early (m : Nat) (early : Bytes) (ticks : List Tick) :
 example : (initTunnelEarly 0 [13, 10, 22, 3]).upstream.buffer = [[13, 10, 22, 3]] ∧
     (initTunnelEarly 0 []) = initTunnel 0 := by decide
 
+/-! ### the idle reaper cannot drop relayed bytes -/
+
+theorem runEv_down (evs : List Ev) (s : St) (hk : s.kind ≠ .local) (inj : Bytes)
+    (h : D s = inj ++ s.recvU) :
+    D (runEv s evs).1 = inj ++ (runEv s evs).1.recvU := by
+  induction evs generalizing s with
+  | nil => exact h
+  | cons e es ih =>
+    cases e with
+    | tick t =>
+      obtain ⟨seg, d⟩ := step_down s t hk
+      have h1 : D (step s t).1 = inj ++ (step s t).1.recvU := by
+        rw [d.d, d.recvU, h, List.append_assoc]
+      unfold runEv
+      rcases hst : step s t with ⟨s1, r⟩
+      rw [hst] at h1 d
+      cases r with
+      | cont => exact ih s1 (by rw [d.kind]; exact hk) h1
+      | teardown => exact h1
+      | raised => exact h1
+    | reap el to =>
+      unfold runEv
+      split
+      · exact h
+      · exact ih s hk h
+
+/-- **C01 with the idle reaper in the schedule.**  Runs in which
+`Threadless._cleanup_inactive` looks at the connection at arbitrary moments,
+with arbitrary clock readings and timeouts, before and after the upstream's
+close: (1) while anything is pending for the client `is_inactive()` is false —
+the reaper never drops pending relayed bytes (`C07_not_reaped_while_pending`
+re-stated for the relay invariant); (2) the invariant delivered ++ pending =
+(ack ++) received holds in every state such a run reaches, for the tunnel (with
+any early payload) and the plain-HTTP exchange; (3) a run that ends with the
+reaper closing the connection has delivered everything it received:
+`sentC = ack ++ recvU` / `sentC = recvU`. -/
+theorem C01_not_reaped_while_pending (m : Nat) (early req : Bytes) (evs : List Ev) :
+    (∀ (s : St) (elapsed timeout : Int), s.client.hasBuffer = true → isInactive s elapsed timeout = false) ∧
+    ((runEv (initTunnelEarly m early) evs).1.sentC ++ (runEv (initTunnelEarly m early) evs).1.client.buffer.flatten
+        = ack ++ (runEv (initTunnelEarly m early) evs).1.recvU) ∧
+    ((runEv (initHttp m req) evs).1.sentC ++ (runEv (initHttp m req) evs).1.client.buffer.flatten
+        = (runEv (initHttp m req) evs).1.recvU) ∧
+    ((runEv (initTunnelEarly m early) evs).2 = .reaped →
+        (runEv (initTunnelEarly m early) evs).1.sentC = ack ++ (runEv (initTunnelEarly m early) evs).1.recvU) ∧
+    ((runEv (initHttp m req) evs).2 = .reaped →
+        (runEv (initHttp m req) evs).1.sentC = (runEv (initHttp m req) evs).1.recvU) := by
+  have reaped_empty : ∀ (evs : List Ev) (s : St), (runEv s evs).2 = .reaped → (runEv s evs).1.client.buffer = [] := by
+    intro evs
+    induction evs with
+    | nil => intro s h; simp [runEv] at h
+    | cons e es ih =>
+      intro s h
+      cases e with
+      | tick t =>
+        unfold runEv at h ⊢
+        rcases hst : step s t with ⟨s1, r⟩
+        rw [hst] at h
+        cases r with
+        | cont => exact ih s1 h
+        | teardown => simp at h
+        | raised => simp at h
+      | reap el to =>
+        unfold runEv at h ⊢
+        split
+        · rename_i hi
+          simp [isInactive, Conn.hasBuffer] at hi
+          exact hi.1
+        · rename_i hi; rw [if_neg hi] at h; exact ih s h
+  have ht := runEv_down evs (initTunnelEarly m early) (by simp [initTunnelEarly, st0]) ack
+    (by simp [D, initTunnelEarly, st0])
+  have hh := runEv_down evs (initHttp m req) (by simp [initHttp, st0]) []
+    (by simp [D, initHttp, st0])
+  refine ⟨fun s e t hb => by simp [isInactive, hb], ht, by simpa [D] using hh, ?_, ?_⟩
+  · intro hr
+    have := reaped_empty evs _ hr
+    unfold D at ht; rw [this] at ht; simpa using ht
+  · intro hr
+    have := reaped_empty evs _ hr
+    unfold D at hh; rw [this] at hh; simpa using hh
+
+/-- the reaper really closes drained idle relays and passes over pending ones -/
+example :
+    let up : Tick := ⟨false, false, true, false, .blocking, .data [7, 8], .blocking, .blocking, .raised⟩
+    let eof : Tick := ⟨false, false, true, false, .blocking, .eof, .blocking, .blocking, .raised⟩
+    let wr : Tick := ⟨false, true, false, false, .blocking, .blocking, .sent 1000, .blocking, .raised⟩
+    (runEv (initHttp 0 [71]) [.tick up, .tick eof, .reap 1000000 10, .reap 5 (-3)]).2 = .open_ ∧
+    (runEv (initHttp 0 [71]) [.tick up, .reap 99 10, .tick wr, .reap 11 10]).2 = .reaped := by decide
+
 end Px.Relay
